@@ -57,6 +57,16 @@ class Check:
                            'ok': res.ok}
         if expect_ok and not res.ok:
             self.machinery_errors.append('TLC run %s failed:\n%s' % (name, res.out[-3000:]))
+        # vacuity guard: with -coverage, every action of the specification must have been taken at least once in this configuration
+        try:
+            cov = res.coverage()
+        except Exception:  # noqa
+            cov = {}
+        if cov:
+            self.legs[name]['actions'] = {a: v[1] for a, v in sorted(cov.items())}
+            agg = self.__dict__.setdefault('_action_totals', {})
+            for a, (distinct, total) in cov.items():
+                agg[a] = agg.get(a, 0) + total
 
     def fail(self, tid, clause, case=None, key=None, desc=None):
         self.failures.append({'tid': tid, 'clause': clause, 'key': key or clause, 'case': case, 'desc': desc})
@@ -74,6 +84,13 @@ class Check:
 
     # ---- finishing
     def finish(self):
+        # vacuity guard: over all configurations of this check, every action of every specification run with -coverage was taken
+        totals = self.__dict__.get('_action_totals', {})
+        never = sorted(a for a, t in totals.items() if t == 0 and not a.endswith('!Init') and a not in self.__dict__.get('untaken_ok', ()))
+        if totals:
+            self.cov['spec_actions_taken'] = {'actions': len(totals), 'never_taken': never}
+        if never:
+            self.machinery_errors.append('vacuous model run: actions never taken in any configuration: %s' % never)
         matched = {}
         violations = []
         for f in self.failures:
